@@ -2,7 +2,9 @@
 (***************************************************************************)
 (* C19.  TLC enumerates pairs of grid profiles on a game in which player   *)
 (* one has a 2-action and a 3-action infoset and player two has either no  *)
-(* multi-action infoset at all or one 2-action infoset, and exponents      *)
+(* multi-action infoset at all or one 2-action infoset (and the same with  *)
+(* the players exchanged, so that either player may have fewer, more or no *)
+(* infosets), and exponents                                                *)
 (* p in {1/2, 1, 3/2, 2, 3, 10} plus the non-positive 0 and -1.  For each  *)
 (* pair it states the facts the property demands of distance(s, t, p)      *)
 (* (which players' strategies coincide, whether the call must panic) and   *)
@@ -22,8 +24,8 @@ Reduced(n) == {w \in Grid(n) : \A j \in 2..SumSeq(w) : ~(\A k \in 1..n : w[k] % 
 
 Exponents == {<<1, 2>>, <<1, 1>>, <<3, 2>>, <<2, 1>>, <<3, 1>>, <<10, 1>>, <<0, 1>>, <<-1, 1>>}
 
-VARIABLES a1, b1, a2, b2, two, c1, c2, p, done
-vars == <<a1, b1, a2, b2, two, c1, c2, p, done>>
+VARIABLES a1, b1, a2, b2, two, c1, c2, p, swap, done
+vars == <<a1, b1, a2, b2, two, c1, c2, p, swap, done>>
 
 Init == /\ a1 \in Reduced(2) /\ a2 \in Reduced(2)
         /\ b1 \in Reduced(3) /\ b2 \in {<<1, 0, 0>>, <<0, 1, 1>>, <<1, 1, 2>>, <<0, 0, 1>>}
@@ -31,6 +33,7 @@ Init == /\ a1 \in Reduced(2) /\ a2 \in Reduced(2)
         /\ IF two THEN c1 \in {<<1, 0>>, <<1, 1>>} /\ c2 \in {<<1, 0>>, <<0, 1>>, <<1, 3>>}
                   ELSE c1 = <<>> /\ c2 = <<>>
         /\ p \in Exponents
+        /\ swap \in BOOLEAN      \* TRUE: the two sides exchange players (player two has the MORE infosets)
         /\ done = FALSE
 
 S1 == <<Normalise(a1), Normalise(b1)>>
@@ -48,16 +51,17 @@ RefDist(s, t, k) == IF Len(s) = 0 THEN Zero
 IntegerP == p[2] = 1 /\ p[1] >= 1
 Ref(s, t) == IF IntegerP /\ p[1] <= 3 THEN RefDist(s, t, p[1]) ELSE Poison
 
+Sw(x) == IF swap THEN <<x[2], x[1]>> ELSE x
 Next == /\ ~done
         /\ done' = TRUE
-        /\ UNCHANGED <<a1, b1, a2, b2, two, c1, c2, p>>
+        /\ UNCHANGED <<a1, b1, a2, b2, two, c1, c2, p, swap>>
         /\ PrintT(<<"OUT", 0, ToJson([
-              s |-> <<<<a1, b1>>, IF two THEN <<c1>> ELSE <<>>>>,
-              t |-> <<<<a2, b2>>, IF two THEN <<c2>> ELSE <<>>>>,
+              s |-> Sw(<<<<a1, b1>>, IF two THEN <<c1>> ELSE <<>>>>),
+              t |-> Sw(<<<<a2, b2>>, IF two THEN <<c2>> ELSE <<>>>>),
               p |-> p,
               panics |-> p[1] <= 0,
-              equal |-> <<SameStrategy(S1, T1), SameStrategy(S2, T2)>>,
-              ref |-> <<Ref(S1, T1), Ref(S2, T2)>>])>>)
+              equal |-> Sw(<<SameStrategy(S1, T1), SameStrategy(S2, T2)>>),
+              ref |-> Sw(<<Ref(S1, T1), Ref(S2, T2)>>)])>>)
 
 Spec == Init /\ [][Next]_vars
 
